@@ -145,6 +145,7 @@ type Exec struct {
 	lemmaStart     int
 	lastResult     Value
 	modelExtra     string
+	litLens        map[string]int
 	retInfos       []retInfo
 }
 
@@ -735,6 +736,11 @@ func (x *Exec) strTerm(v VStr) Term {
 	if v.Off.S == "0" && v.Len.S == x.slen(v.Base).S {
 		return v.Base
 	}
+	if v.Off.S == "0" {
+		if n, ok := x.litLens[v.Base.S]; ok && v.Len.S == IntLit(int64(n)).S {
+			return v.Base // a whole literal
+		}
+	}
 	return App("ssub", SStr, v.Base, v.Off, Add(v.Off, v.Len))
 }
 
@@ -748,6 +754,10 @@ func (x *Exec) strLit(s string) VStr {
 	}
 	t := x.declare(name, SStr)
 	x.lits[s] = t
+	if x.litLens == nil {
+		x.litLens = map[string]int{}
+	}
+	x.litLens[t.S] = len(s)
 	x.litOrder = append(x.litOrder, s)
 	x.assume(Eq(x.slen(t), IntLit(int64(len(s)))))
 	if len(s) <= 256 {
@@ -862,6 +872,10 @@ type loopInfo struct {
 	writes    *writeLog
 	autosDone bool
 	autoMeasure func(x *Exec, fr *Frame, st *State) Term
+	frame          *ModSet
+	frameWM        Term
+	frameNames     []string
+	headSnapBefore heapSnap
 }
 
 type autoInv struct {
@@ -991,6 +1005,10 @@ func (x *Exec) analyzeLoops(fr *Frame) {
 		pos token.Pos
 	}
 	var lks []lk
+	// inner loops first, so that a loop whose header carries the position of an inner statement
+	// (e.g. "for { for k := range m {" ) is paired with the next enclosing statement
+	sort.SliceStable(headers, func(i, j int) bool { return len(fr.loops[headers[i]].body) < len(fr.loops[headers[j]].body) })
+	claimed := map[ast.Node]bool{}
 	for _, h := range headers {
 		li := fr.loops[h]
 		pos := token.NoPos
@@ -1032,8 +1050,12 @@ func (x *Exec) analyzeLoops(fr *Frame) {
 		if file != nil && pos.IsValid() {
 			path, _ := astutil.PathEnclosingInterval(file, pos, pos)
 			for _, n := range path {
+				if claimed[n] {
+					continue
+				}
 				switch n := n.(type) {
 				case *ast.ForStmt:
+					claimed[n] = true
 					if n.Cond != nil {
 						li.condText = compactSpaces(x.P.srcText(n.Cond.Pos(), n.Cond.End()))
 					} else {
@@ -1041,6 +1063,7 @@ func (x *Exec) analyzeLoops(fr *Frame) {
 					}
 					li.pos = n.Pos()
 				case *ast.RangeStmt:
+					claimed[n] = true
 					kv := ""
 					if n.Key != nil {
 						kv = x.P.srcText(n.Key.Pos(), n.Key.End())
@@ -1619,4 +1642,23 @@ func flattenAnd(t Term) []Term {
 	}
 	walk(sx[0])
 	return out
+}
+
+// constArray: an array holding v everywhere. Solvers only accept (as const ...) over values, so for
+// non-literal v (string constants, ...) a declared array with a defining axiom is used instead.
+func (x *Exec) constArray(idx Sort, v Term) Term {
+	s := ArrSort(idx, v.Sort)
+	if v.S == "true" || v.S == "false" || isLiteral(v) {
+		return App("(as const "+string(s)+")", s, v)
+	}
+	name := "constarr." + sanitize(string(idx)) + "." + sanitize(v.S)
+	if len(name) > 80 {
+		name = fmt.Sprintf("constarr.%d", fnvHash(name))
+	}
+	if !x.declared[name] {
+		x.declared[name] = true
+		x.decls = append(x.decls, fmt.Sprintf("(declare-fun %s () %s)", name, s))
+		x.decls = append(x.decls, fmt.Sprintf("(assert (forall ((i %s)) (! (= (select %s i) %s) :pattern ((select %s i)))))", idx, name, v.S, name))
+	}
+	return Term{name, s}
 }
